@@ -375,18 +375,18 @@ impl Runner {
     /// happens); entry -1 = the "between" steps are executed now, while the uploads that have begun are still in flight.
     /// A request takes effect when its body is complete, so the recorded order of completion is the sequential history
     /// the responses must be explained by.
-    pub fn step_multi(&mut self, s: &Value, idx: usize) -> (Vec<Value>, bool) {
+    pub fn step_multi(&mut self, s: &Value, idx: usize) -> (Vec<(Value, Value)>, bool) {
         if s["op"] != "Overlap" {
             let (ev, stop) = self.step(s, idx);
-            return (vec![ev], stop);
+            return (vec![(s.clone(), ev)], stop);
         }
-        let mut events: Vec<Value> = vec![];
+        let mut events: Vec<(Value, Value)> = vec![];
         let addr = match self.sock_addr.clone() {
             Some(a) => a,
             None => {
                 let mut ev = self.reset_event();
                 ev["toolerr"] = json!("Overlap needs the socket driver");
-                return (vec![ev], true);
+                return (vec![(s.clone(), ev)], true);
             }
         };
         let ups = s["uploads"].as_array().cloned().unwrap_or_default();
@@ -417,7 +417,7 @@ impl Runner {
         }
         let mut stop = false;
         let order: Vec<i64> = s["order"].as_array().map(|a| a.iter().filter_map(|x| x.as_i64()).collect()).unwrap_or_default();
-        let finish = |me: &mut Runner, u: &mut Up, events: &mut Vec<Value>, idx: usize| -> bool {
+        let finish = |me: &mut Runner, u: &mut Up, events: &mut Vec<(Value, Value)>, idx: usize| -> bool {
             let op = u.step["op"].as_str().unwrap_or("AddVersion").to_string();
             let res = match u.conn.take() {
                 Some(c) => c.finish(),
@@ -429,7 +429,7 @@ impl Runner {
             };
             me.injected = Some(Injected { a: u.a, tok: u.tok, out, h });
             let (ev, stop) = me.step(&u.step, idx);
-            events.push(ev);
+            events.push((u.step.clone(), ev));
             stop
         };
         for o in order {
@@ -439,7 +439,7 @@ impl Runner {
             if o < 0 {
                 for b in s["between"].as_array().cloned().unwrap_or_default() {
                     let (ev, st2) = self.step(&b, idx);
-                    events.push(ev);
+                    events.push((b.clone(), ev));
                     if st2 {
                         stop = true;
                         break;
@@ -784,6 +784,11 @@ impl Runner {
         // requests quote ids the plan expected to be issued); a different STATE is only recorded.
         let mut div = false;
         let mut sdiv = false;
+        // a request the socket server never answered (the wait ran out): the server is stuck - whatever else was planned would
+        // wait as long again, so the run ends here (the unanswered request is in the trace)
+        if resp.kind == "error" && resp.msg.starts_with("socket") && (resp.msg.contains("read:") || resp.msg.contains("timed out")) && self.driver_kind == "sock" {
+            div = true;
+        }
         if let Some(exp) = s.get("exp") {
             if let Some(k) = exp["kind"].as_str() {
                 if k != resp.kind {
@@ -1047,7 +1052,7 @@ pub fn run_job(job: &Value, scratch: &std::path::Path, w: &mut dyn Write) -> any
     let steps = job["steps"].as_array().cloned().unwrap_or_default();
     for (i, s) in steps.iter().enumerate() {
         let (evs, stop) = r.step_multi(s, i);
-        for ev in evs {
+        for (_, ev) in evs {
             writeln!(w, "{}", ev)?;
             n += 1;
             if ev.get("toolerr").is_some() {
